@@ -148,7 +148,7 @@ type c08Handler struct {
 }
 
 func c08(run *ev.Run) int {
-	run.SetRule("negotiation cases = handler registration list x client registration list (all ordered subsets of {zz-rev,Zz-Xor,zz-len}, with gzip re-registered nowhere / last / in the middle) x send-compression in client set + none x client and handler compress-min in {0,1,100,1024} x read limit {none, MaxInt} on either side x message sizes {min-1,min,min+1} x 3 protocols x 2 codecs x 4 kinds (seeded sample; thorough also walks every handler-list x client-list pair); isolation histories = corrupt (bit flip, truncation, bad CRC/ISIZE/magic, trailing garbage) and valid compressed calls on shared pools, sequential with GOMAXPROCS=1 and concurrent with GC off, on the handler side and on the client side; peer terminators = Connect end-of-stream messages (flags 0x03) and gRPC-Web trailer frames (0x81) compressed by a conformant peer with gzip or a custom algorithm; paired history = corrupt calls whose compression header is rejected by Reset itself, then valid calls whose instrumented decompressors wait for each other inside Read (so that they own their pooled objects at the same moment); oracle = negotiation model + lossless + threshold + instrumented (de)compressor discipline + double-release table for pooled compressors/decompressors (hook) + every valid call succeeds with its own payload; distinct by (handler list, client list, send, protocol, kind, size class)")
+	run.SetRule("negotiation cases = handler registration list x client registration list (all ordered subsets of {zz-rev,Zz-Xor,zz-len}, with gzip re-registered nowhere / last / in the middle) x send-compression in client set + none x client and handler compress-min in {0,1,100,1024} x read limit {none, MaxInt} on either side x message sizes {min-1,min,min+1} x 3 protocols x 2 codecs x 4 kinds (seeded sample; thorough also walks every handler-list x client-list pair); isolation histories = corrupt (bit flip, truncation, bad CRC/ISIZE/magic, trailing garbage) and valid compressed calls on shared pools, sequential with GOMAXPROCS=1 and concurrent with GC off, on the handler side and on the client side; peer terminators = Connect end-of-stream messages (flags 0x03) and gRPC-Web trailer frames (0x81) compressed by a conformant peer with gzip or a custom algorithm; paired history = corrupt calls whose compression header is rejected by Reset itself, then valid calls whose instrumented decompressors wait for each other inside Read (so that they own their pooled objects at the same moment); oracle = negotiation model + lossless + threshold + instrumented (de)compressor discipline + double-release table for pooled compressors/decompressors (hook) + every valid call succeeds with its own payload; distinct by (handler list, client list, send, protocol, kind, size class); a registered compression whose Compressor.Close refuses inputs over 600 bytes, both directions, real sockets: the refused message is never delivered as anything else, the call fails, messages within the cap are unaffected")
 	stats := map[string]*svc.AlgoStats{}
 	for _, n := range svc.AlgoNames {
 		stats[n] = &svc.AlgoStats{}
@@ -226,6 +226,9 @@ func c08(run *ev.Run) int {
 	}
 	if !run.Replaying() || strings.Contains(os.Getenv("VERIF_REPLAY_KEY"), "/peer-terminator/") {
 		c08PeerTerminators(run, "c08")
+	}
+	if !run.Replaying() || strings.Contains(os.Getenv("VERIF_REPLAY_KEY"), "/failing-compressor/") {
+		failingCompressor(run, "c08", false)
 	}
 	return run.Finish("negotiations", "compressed.payloads.verified", "below_min.checked", "unsupported.rejections", "isolation.valid_calls", "isolation.corrupt_calls", "paired.rendezvous", "peer_terminators.decoded")
 }
